@@ -93,6 +93,10 @@ pub trait Obj: Any {
     fn as_any_mut(&mut self) -> Option<&mut dyn Any> {
         None
     }
+    /// `Clone::clone_from`: the structure held here is overwritten with a copy of the one held by `o`
+    fn clone_from_obj(&mut self, _o: &dyn Obj) -> bool {
+        false
+    }
     fn threads(&self, _k: usize, _op: &str, _a: &[u128]) -> String {
         "X".into()
     }
@@ -464,6 +468,15 @@ impl<X: TreeApi> Obj for TreeObj<X> {
     fn iter(&self, src: &str, ops: &str, _a: &[u128]) -> String {
         self.t.t_iter(src == "into", ops)
     }
+    fn clone_from_obj(&mut self, o: &dyn Obj) -> bool {
+        match o.as_any().downcast_ref::<TreeObj<X>>() {
+            Some(x) => {
+                self.t.clone_from(&x.t);
+                true
+            }
+            None => false,
+        }
+    }
     fn as_any(&self) -> &dyn Any {
         self
     }
@@ -569,6 +582,15 @@ impl Obj for QvObj {
             run_iter_fw(self.q.clone().into_iter(), ops, |x| x)
         } else {
             run_iter_fw(self.q.iter(), ops, |x| x)
+        }
+    }
+    fn clone_from_obj(&mut self, o: &dyn Obj) -> bool {
+        match o.as_any().downcast_ref::<QvObj>() {
+            Some(x) => {
+                self.q.clone_from(&x.q);
+                true
+            }
+            None => false,
         }
     }
     fn as_any(&self) -> &dyn Any {
@@ -740,6 +762,15 @@ impl<R: RsqApi> Obj for RsqObj<R> {
     fn iter(&self, src: &str, ops: &str, _a: &[u128]) -> String {
         self.r.r_iter(src == "into", ops)
     }
+    fn clone_from_obj(&mut self, o: &dyn Obj) -> bool {
+        match o.as_any().downcast_ref::<RsqObj<R>>() {
+            Some(x) => {
+                self.r.clone_from(&x.r);
+                true
+            }
+            None => false,
+        }
+    }
     fn as_any(&self) -> &dyn Any {
         self
     }
@@ -851,6 +882,16 @@ impl<B: BinApi> Obj for BinObj<B> {
     fn inline_size(&self) -> usize {
         std::mem::size_of::<B>()
     }
+    fn clone_from_obj(&mut self, o: &dyn Obj) -> bool {
+        match o.as_any().downcast_ref::<BinObj<B>>() {
+            Some(x) => {
+                self.b.clone_from(&x.b);
+                self.n = x.n;
+                true
+            }
+            None => false,
+        }
+    }
     fn as_any(&self) -> &dyn Any {
         self
     }
@@ -940,6 +981,15 @@ impl<const S0: bool> Obj for DaObj<S0> {
             "oneswp" => run_iter_fw(self.d.ones_with_pos(us(a[0])), ops, |x| x),
             "zeroswp" => run_iter_fw(self.d.zeros_with_pos(us(a[0])), ops, |x| x),
             _ => "X".into(),
+        }
+    }
+    fn clone_from_obj(&mut self, o: &dyn Obj) -> bool {
+        match o.as_any().downcast_ref::<DaObj<S0>>() {
+            Some(x) => {
+                self.d.clone_from(&x.d);
+                true
+            }
+            None => false,
         }
     }
     fn as_any(&self) -> &dyn Any {
@@ -1127,6 +1177,22 @@ impl Obj for BvObj {
             Bv::M(b) => bv_iter!(b, src, ops, a),
         }
     }
+    fn clone_from_obj(&mut self, o: &dyn Obj) -> bool {
+        match o.as_any().downcast_ref::<BvObj>() {
+            Some(x) => match (&mut self.b, &x.b) {
+                (Bv::I(a), Bv::I(b)) => {
+                    a.clone_from(b);
+                    true
+                }
+                (Bv::M(a), Bv::M(b)) => {
+                    a.clone_from(b);
+                    true
+                }
+                _ => false,
+            },
+            None => false,
+        }
+    }
     fn as_any(&self) -> &dyn Any {
         self
     }
@@ -1240,6 +1306,10 @@ impl State {
             },
             "SWAP" => match (self.cur.as_mut(), self.slots.get_mut(t[1])) {
                 (Some(o), Some(sl)) => tf(o.swap_obj(&mut **sl)),
+                _ => "X".into(),
+            },
+            "CLONEFROM" => match (self.cur.as_mut(), self.slots.get(t[1])) {
+                (Some(o), Some(sl)) => tf(o.clone_from_obj(&**sl)),
                 _ => "X".into(),
             },
             "DROP" => {
